@@ -1,6 +1,6 @@
 """C03 -- integrate returns exactly the marginal / partition function (structural clauses)."""
 from ..core import Ctx, Ob, PropSpec
-from ..rules import r2, r8, extra
+from ..rules import r2, r8, extra, r7i
 
 
 def run(ctx: Ctx) -> list[Ob]:
@@ -14,6 +14,7 @@ def run(ctx: Ctx) -> list[Ob]:
     obs += r8.run_guards(ctx, r8.GUARDS_INTEGRATE)
     obs += extra.integrate_structure(ctx)
     obs += extra.constant_value_layer(ctx)
+    obs += r7i.rewiring_order(ctx, ['integrate'])
     return obs
 
 
@@ -27,9 +28,9 @@ SPEC = PropSpec(
         "functional.integrate replaces exactly the input layers whose scope meets the integration scope, copies every other layer "
         "by reference with inputs re-wired in order, forwards scope= to the rule and records it in the metadata; the four "
         "precondition guards fire under every valuation (R8 truth table on the CFG); TorchConstantValueLayer maps from the semiring "
-        "selected by log_space."
+        "selected by log_space. R7i: every comprehension over <circuit>.layer_inputs(<layer>) that re-wires a copied layer in this operator is an order-preserving total map (no `if` filter, not concatenated, not sorted / reversed / made a set): product layers and sum weights are positional."
     ),
     not_decided="the closed forms themselves (numerical), continuous integration, commutation of nested integration.",
     run=run,
-    floors={"R2e": 6, "R2a": 6, "R8": 4},
+    floors={"R7i": 1, "R2e": 6, "R2a": 6, "R8": 4},
 )
